@@ -1072,6 +1072,7 @@ func (ts *TS) summary(f *ssa.Function) *fnSummary {
 	deletesTable := false
 	sharedLock := false
 	touchesParam := map[int]bool{}
+	callsLockedGetter := false // obtains a locked fid from a returns-locked helper (a wrapper such as getOpenRef)
 	eachInstr(f, func(in ssa.Instruction) {
 		switch x := in.(type) {
 		case ssa.CallInstruction:
@@ -1117,6 +1118,9 @@ func (ts *TS) summary(f *ssa.Function) *fnSummary {
 				if gs.touchesLocks {
 					sum.touchesLocks = true
 				}
+				if gs.returnsLocked {
+					callsLockedGetter = true
+				}
 				if gs.acquiresTable || (gs.returnsLocked && fnAcquiresShared(ts, g)) {
 					// transitively blocking on a shared lock; whether it returns locked is decided below
 					sharedLock = true
@@ -1152,7 +1156,7 @@ func (ts *TS) summary(f *ssa.Function) *fnSummary {
 	}
 	// returns-locked: signature (*Tok, error) and every success return holds exactly the result's lock
 	res := f.Signature.Results()
-	if res.Len() == 2 && ts.isTokPtr(res.At(0).Type()) && isErrorType(res.At(1).Type()) && locks > 0 {
+	if res.Len() == 2 && ts.isTokPtr(res.At(0).Type()) && isErrorType(res.At(1).Type()) && (locks > 0 || callsLockedGetter) {
 		sub := newTS(ts.p, ts.spec)
 		sub.sums = ts.sums
 		sub.own = ts.own
